@@ -26,7 +26,8 @@ ASSUMPTIONS = [
     "stdlib_list and of fickling's tables; `__main__` is deliberately not in the vocabulary",
     "programs on which the analysis raises or which fickling refuses belong to C19 / are "
     "fail-closed, and are counted, not judged",
-    "two globals sharing an attribute name are excluded by construction (KF-C03-1)",
+    "for programs in which two globals share an attribute name only the import clauses of the "
+    "floor are asserted (the call clauses fall under the open finding KF-C03-1)",
     "persistent_load calls carry no floor (not a callee computed by the pickle)",
 ]
 
@@ -67,7 +68,21 @@ def floor_of(log):
     return floor, why
 
 
-def judge(data):
+def import_floor_of(log):
+    """floor from import events only (used for programs with attribute-name collisions, where
+    the call clauses fall under the open finding KF-C03-1 but the import clauses do not)"""
+    floor, why = 0, None
+    for ev in log.events:
+        if ev[0] != "import":
+            continue
+        cat = vocab.category(ev[1])
+        f = 3 if cat == "nonstd" else 4 if cat == "dangerous" else 0
+        if f > floor:
+            floor, why = f, ev
+    return floor, why
+
+
+def judge(data, imports_only=False):
     """(Failure|None, klass, floor)"""
     from fickling.analysis import check_safety
     from fickling.fickle import Pickled
@@ -76,7 +91,7 @@ def judge(data):
     if not ref.ok:
         return None, "ref-reject", 0
     try:
-        floor, why = floor_of(ref.log)
+        floor, why = import_floor_of(ref.log) if imports_only else floor_of(ref.log)
     except KeyError:
         return None, "unlabelled-module", 0
     try:
@@ -99,7 +114,7 @@ def judge(data):
 
 
 def replay(case):
-    return judge(bytes.fromhex(case["hex"]))[0]
+    return judge(bytes.fromhex(case["hex"]), case.get("imports_only", False))[0]
 
 
 def _plain(cell):
@@ -119,7 +134,8 @@ def shards(tier):
     else:
         out += [{"kind": "cells", "part": i, "nparts": 32} for i in range(32)]
     per = 300 if tier == "quick" else 6000
-    out += [{"kind": "random", "n": per, "idx": i} for i in range(16)]
+    out += [{"kind": "random", "n": per, "idx": i} for i in range(12)]
+    out += [{"kind": "collide", "n": per, "idx": i} for i in range(4)]
     return out
 
 
@@ -160,6 +176,30 @@ def run_shard(spec, seed):
         hypothesis_search(
             cells.cell_strategy(ents), lambda c: _do_cell(res, c), seed, spec["n"], res, batch=500
         )
+    elif spec["kind"] == "collide":
+        # same attribute name from different modules (stdlib first, dangerous / non-stdlib
+        # later and vice versa): only the import clauses of the floor are asserted here
+        names = ("join", "load", "system")
+        mods = ("shlex", "os.path", "foo.bar", "collections", "subprocess", "torch", "posix", "numpy")
+        prof = asm.full_profile(
+            tuple((m, n) for n in names for m in mods), unique_attr_names=False
+        )
+        prof.weights["GLOBAL"] = 30
+
+        def body(prog):
+            f, klass, floor = judge(prog.data, imports_only=True)
+            if f is not None:
+                f.case["imports_only"] = True
+            mods_used = {a[0] for op, a in prog.instrs if op in ("GLOBAL", "INST")}
+            res.note(
+                prog.data,
+                floor > 0 and len(mods_used) >= 2,
+                klass=[klass, "collide"],
+                sample={"collide": prog.data.hex(), "floor": floor},
+            )
+            return f
+
+        hypothesis_search(asm.programs(prof, max_len=16), body, seed, spec["n"], res, batch=500)
     else:
         prof = asm.full_profile(vocab.ASM_GLOBS)
 
